@@ -248,6 +248,10 @@ func (api *API) encodeStructFields(
 			if err != nil {
 				return ierrors.Wrapf(err, "failed to serialize optional struct field %s", sField.name)
 			}
+			if len(fieldBytes) == 0 {
+				// a zero length marker means "absent": a present value without bytes can't be represented
+				return ierrors.Errorf("optional struct field %s serializes to zero bytes, which is indistinguishable from an absent value", sField.name)
+			}
 			s.WritePayloadLength(len(fieldBytes), func(err error) error {
 				return ierrors.Wrapf(err,
 					"failed to write length for an optional struct field %s to serializer",
